@@ -697,6 +697,10 @@ fn apply_real(doc: &mut DocumentMut, op: &Op) -> Result<(), String> {
                 _ => None,
             };
             match op {
+                // every third value arrives with trivia of the place it was taken from; `push` and
+                // `insert` apply default formatting, so the comment must not reach the text
+                ArrOp::Push(v) if v % 3 == 0 => a.push(toml_edit::Value::from(*v).decorated("\n  # was here\n  ", " # and here")),
+                ArrOp::Insert(i, v) if v % 3 == 0 => a.insert(*i, toml_edit::Value::from(*v).decorated("  ", " # and here")),
                 ArrOp::Push(v) => a.push(*v),
                 ArrOp::Insert(i, v) => a.insert(*i, *v),
                 ArrOp::Replace(i, v) => {
